@@ -4,6 +4,7 @@
 P=$1; PATCH=$2; shift 2
 exec 9>/tmp/ag-main.lock; flock 9   # one mutation run at a time (shared scratch worktree)
 D=/tmp/ag-main
+[ -d $D/repo ] || { mkdir -p $D/verif && git -C /repo worktree add -q --detach $D/repo HEAD; }   # scratch worktree (removed when done: git -C /repo worktree remove --force $D/repo)
 git -C $D/repo checkout -q -- . && git -C $D/repo checkout -q --detach $(git -C /repo rev-parse HEAD) 2>/dev/null
 rsync -a --exclude target --exclude .git --exclude evidence --exclude replays /verif/ $D/verif/
 git -C $D/repo apply "$PATCH" || { echo "PATCH DOES NOT APPLY"; exit 3; }
